@@ -291,9 +291,13 @@ class BytesBase64Provider(_Base64DumperMixin, _Base64JSONSchemaMixin, MorphingPr
                 raise ValueLoadError("Bad base64 string", data)
 
             try:
-                return a2b_base64(encoded)
+                result = a2b_base64(encoded)
             except binascii.Error as e:
                 raise ValueLoadError(str(e), data)
+
+            if len(encoded) % 4:  # a2b_base64 tolerates stray padding such as "=" or "QUJD="
+                raise ValueLoadError("Incorrect padding", data)
+            return result
         return bytes_base64_loader
 
 
